@@ -72,7 +72,12 @@ def wkey(w: Write) -> str:
 
 
 def rkey(r: RaiseSite) -> str:
-    return f"{r.func.qualname.split('@')[0]}: {norm_text(r.node, r.func.node, 70)}"
+    """Identity of a raise site for the known-findings atoms: function + exception class for explicit raises (the message is
+    not part of the identity - rewording it is not a new hazard), normalised text for implicit sites (subscripts, list.remove)."""
+    fq = r.func.qualname.split('@')[0]
+    if isinstance(r.node, ast.Raise):
+        return f"{fq}: raise {r.exc}" if r.node.exc is not None else f"{fq}: raise"
+    return f"{fq}: {norm_text(r.node, r.func.node, 70)}"
 
 
 class Atom:
@@ -146,13 +151,13 @@ class Atom:
             val = getattr(st, 'value', None)
             if rn is not None:
                 for t, lab in dom.guards_of(g, rn):
-                    if t.kind != 'test' or lab != 'T':
-                        continue
+                    if t.kind != 'test' or lab != 'F':
+                        continue           # CFG tests are positive (leading `not` stripped, labels swapped): `if not isinstance(..)` = the F edge
                     txt = unparse(t.ast)
                     p = callee.params[1] if len(callee.params) > 1 else 'val'
-                    if txt == f"not isinstance({p}, bool)" and isinstance(val, ast.Constant) and isinstance(val.value, bool):
+                    if txt == f"isinstance({p}, bool)" and isinstance(val, ast.Constant) and isinstance(val.value, bool):
                         return "literal bool argument passes the setter's type guard"
-                    if txt == 'not isinstance(self.content, XSDChoice)':
+                    if txt == 'isinstance(self.content, XSDChoice)':
                         # (ii) single-writer invariant: the receiver is known to be a choice at this call
                         recv = unparse(node.value)
                         cg_ = cfg_of(caller.node)
